@@ -85,6 +85,7 @@ def perms(n):
 
 
 pose_R = np.eye(3)
+pose_t = np.zeros(3)
 
 
 def descriptor(kind, L, zs, pos, ext=None, channel=None, isovalue=None):
@@ -125,6 +126,12 @@ def descriptor(kind, L, zs, pos, ext=None, channel=None, isovalue=None):
             kw["isovalue"] = isovalue
         o = (np.mean(pos, axis=0) + np.array([0.2, -0.1, 0.15]) @ pose_R.T).astype(np.float32)
         return promolecule_density_descriptor(sht, zs, pos, origin=o, **kw)
+    if kind == "promolecule-origin-zero":
+        # the requested origin is EXACTLY the zero vector in the reference pose (the molecule sits off the lab origin) and moves with the pose
+        if isovalue is not None:
+            kw["isovalue"] = isovalue
+        o = np.asarray(pose_t, dtype=np.float32).copy()
+        return promolecule_density_descriptor(sht, zs, pos, origin=o, **kw)
     if kind == "atomic-api":
         m = Molecule([Element.from_atomic_number(int(z)) for z in zs], np.array(pos, dtype=float))
         return np.asarray(m.atomic_shape_descriptors(l_max=L))
@@ -149,8 +156,11 @@ def mol_worker(part, job):
     syms, p0 = MOLS[name]
     zs = zs_of(syms)
     p0 = np.array(p0, dtype=float)
-    global pose_R
+    global pose_R, pose_t
     pose_R = np.eye(3)
+    pose_t = np.zeros(3)
+    if kind == "promolecule-origin-zero":
+        p0 = p0 + np.array([0.35, -0.25, 0.2])      # centroid clearly away from the requested origin (0,0,0)
     ext0 = exterior_for(name, zs, p0) if kind.startswith("stockholder") else None
     case0 = {"kind": "mol", "mol": name, "L": L, "surface": kind, "channel": channel, "isovalue": isovalue, "seed": seed}
     tag = "%s:%s:L=%d" % (kind, channel or "shape", L)
@@ -187,8 +197,10 @@ def mol_worker(part, job):
     # translations
     for t in TRANSLATIONS[1:]:
         t = np.array(t)
+        pose_t = t
         run_pose("translation", zs, p0 + t, (ext0[0], ext0[1] + t) if ext0 else None, TAU_TRANS, "translation by %s" % (tuple(t),))
     # permutations
+    pose_t = np.zeros(3)
     for pm in perms(len(zs)):
         pose_perm = pm
         pm = list(pm)
@@ -202,6 +214,7 @@ def mol_worker(part, job):
         t = np.array(TRANSLATIONS[ri % 3])
         pose_perm = tuple(range(len(zs)))
         pose_R = R
+        pose_t = t
         run_pose("rotation", zs, p0 @ R.T + t, (ext0[0], ext0[1] @ R.T + t) if ext0 else None, tau_rot(kind, L, channel),
                  "rotation %s + translation %s" % ("*".join(w), tuple(t)))
     part.nontriv((name, L, kind, channel, isovalue))
@@ -427,7 +440,7 @@ def run(ctx):
             combos = [("promolecule", None, 2e-4), ("promolecule", None, 2e-3), ("promolecule", "d_norm", 2e-4), ("promolecule", "esp", 2e-4),
                       ("stockholder", None, None), ("stockholder", "d_norm", None), ("stockholder", "esp", None), ("molecule-api", None, None),
                       ("stockholder-default", None, None), ("stockholder-default", "d_norm", None), ("stockholder-default", "esp", None),
-                      ("promolecule-origin", None, 2e-4), ("promolecule-origin", "d_norm", 2e-4)]
+                      ("promolecule-origin", None, 2e-4), ("promolecule-origin", "d_norm", 2e-4), ("promolecule-origin-zero", None, 2e-4)]
             combos += [("promolecule|N", None, 2e-4), ("molecule-api|N", None, None), ("stockholder|N", None, None),
                        ("promolecule|N", "d_norm", 2e-4)]
             if L == 6:
